@@ -1,9 +1,10 @@
 /-
 C06 — Splitting a file and writing it back is the identity.
-(all five splitters; for the JS-string splitter non-emptiness of the atoms is checked by the monitor only)
+(all five splitters)
 -/
 import LithiumProofs.Load
 import LithiumProofs.SplitJs
+import LithiumProofs.SplitJsNe
 import LithiumProofs.SplitAttrs
 
 namespace Load
@@ -41,11 +42,19 @@ theorem C06_roundtrip_attrs (d : Bytes) (t : Testcase) (h : Attrs.loadAttrs d = 
 theorem C06_no_internal_error_attrs (d : Bytes) (w : String) : Attrs.loadAttrs d ≠ .error (.internal w) :=
   loadWith_no_internal _ (fun x => by unfold Attrs.splitAttrs; simp only; split <;> exact ⟨_, rfl⟩) d w
 
-/-- JS-string mode: the bytes are reproduced and every part has exactly one flag (that no atom is
-empty is checked on the real code by the monitor, not proved for this splitter) -/
-theorem C06_roundtrip_jsstr_partial (d : Bytes) (t : Testcase) (h : Js.loadJs d = .ok t) :
-    t.content = d ∧ t.WF :=
-  loadWith_cat _ (fun x s hs => Js.splitJs_cat x s hs) d t h
+/-- JS-string mode: the bytes are reproduced, every part — string character, escape sequence, or the
+text between them — is non-empty and has exactly one flag (the `chars` index list of the tokenizer
+stays strictly increasing and in range through the back-tracking and the gap merge) -/
+theorem C06_roundtrip_jsstr (d : Bytes) (t : Testcase) (h : Js.loadJs d = .ok t) :
+    t.content = d ∧ (∀ p ∈ t.parts, p ≠ []) ∧ t.WF :=
+  loadWith_ok _ Js.splitJs_ok d t h
+
+/-- non-vacuity: `x='a\x41'+"b"` -/
+example :
+    (Js.loadJs [0x78, 0x3D, 0x27, 0x61, 0x5C, 0x78, 0x34, 0x31, 0x27, 0x2B, 0x22, 0x62, 0x22]).toOption.map
+      (fun t => (t.before, t.parts, t.reducible, t.after))
+      = some ([0x78, 0x3D, 0x27], [[0x61], [0x5C, 0x78, 0x34, 0x31], [0x27, 0x2B, 0x22], [0x62]], [true, true, false, true], [0x22]) := by
+  decide
 
 /-- the only failures of these three loaders are the two marker errors -/
 theorem C06_no_internal_error (d : Bytes) (w : String) (B A : List UInt8) :
